@@ -308,3 +308,50 @@ Section ZeroError.
     Qed.
   End Positions.
 End ZeroError.
+
+(* ---------------- the interpolated error never leaves the range of the table's values ---------------- *)
+Lemma lin_between : forall x0 f0 x1 f1 x (lo hi : Q), x0 <= x -> x <= x1 -> x0 < x1 ->
+  (lo <= f0)%Q -> (f0 <= hi)%Q -> (lo <= f1)%Q -> (f1 <= hi)%Q ->
+  (lo <= lin x0 f0 x1 f1 x)%Q /\ (lin x0 f0 x1 f1 x <= hi)%Q.
+Proof.
+  intros x0 f0 x1 f1 x lo hi H0 H1 H01 L0 U0 L1 U1.
+  set (t := (inject_Z (x - x0) / inject_Z (x1 - x0))%Q).
+  assert (D : (0 < inject_Z (x1 - x0))%Q) by (change 0%Q with (inject_Z 0); rewrite <- Zlt_Qlt; lia).
+  assert (T0 : (0 <= t)%Q).
+  { unfold t. apply Qle_shift_div_l; [exact D|]. rewrite Qmult_0_l. change 0%Q with (inject_Z 0). rewrite <- Zle_Qle. lia. }
+  assert (T1 : (t <= 1)%Q).
+  { unfold t. apply Qle_shift_div_r; [exact D|]. rewrite Qmult_1_l. rewrite <- Zle_Qle. lia. }
+  assert (E : (lin x0 f0 x1 f1 x == (1 - t) * f0 + t * f1)%Q).
+  { unfold lin, t. field. intros Z0. rewrite Z0 in D. apply (Qlt_irrefl 0). exact D. }
+  rewrite E.
+  assert (A : (0 <= 1 - t)%Q) by (unfold Qminus; rewrite <- Qle_minus_iff; exact T1).
+  assert (M : forall c a b : Q, (0 <= c)%Q -> (a <= b)%Q -> (c * a <= c * b)%Q).
+  { intros c a b Hc Hab. rewrite (Qmult_comm c a), (Qmult_comm c b). apply Qmult_le_compat_r; assumption. }
+  split.
+  - setoid_replace lo with ((1 - t) * lo + t * lo)%Q by ring.
+    apply Qplus_le_compat; apply M; assumption.
+  - setoid_replace hi with ((1 - t) * hi + t * hi)%Q by ring.
+    apply Qplus_le_compat; apply M; assumption.
+Qed.
+
+Lemma interp_from_bounded : forall r x0 f0 x (lo hi : Q), x0 <= x -> (lo <= f0)%Q -> (f0 <= hi)%Q ->
+  Forall (fun p => (lo <= snd p)%Q /\ (snd p <= hi)%Q) r ->
+  (lo <= interp_from x0 f0 r x)%Q /\ (interp_from x0 f0 r x <= hi)%Q.
+Proof.
+  induction r as [|[x1 f1] r IH]; intros x0 f0 x lo hi H0 L0 U0 HF; cbn [interp_from]; [split; assumption|].
+  inversion HF as [|p q [Lp Up] Hq]; subst. cbn [snd] in Lp, Up.
+  destruct (Z.ltb_spec x x1) as [Hlt|Hge].
+  - apply lin_between; try assumption; lia.
+  - apply IH; assumption.
+Qed.
+
+(* for ANY table (chronological or not): the interpolated clock error lies between the smallest and the largest tabulated error *)
+Theorem interp_bounded : forall tab x (lo hi : Q), tab <> nil ->
+  Forall (fun p => (lo <= snd p)%Q /\ (snd p <= hi)%Q) tab ->
+  (lo <= interp tab x)%Q /\ (interp tab x <= hi)%Q.
+Proof.
+  intros [|[x0 f0] r] x lo hi Hne HF; [congruence|].
+  inversion HF as [|p q [Lp Up] Hq]; subst. cbn [snd] in Lp, Up. cbn [interp].
+  destruct (Z.leb_spec x x0); [split; assumption|].
+  apply interp_from_bounded; try assumption. lia.
+Qed.
